@@ -41,6 +41,11 @@ pub struct LiqCase {
     /// the liquidatee's maintenance health cannot be assessed, so the liquidation must not succeed
     #[serde(default)]
     pub stale_extra: bool,
+    /// when the liquidatee holds no extra collateral: it opens a position in bank 2 and empties it again with a plain
+    /// withdraw, so that an open slot with zero shares stays behind (it must not influence any valuation — e-mode
+    /// reconciliation in particular: bank 2 has no e-mode entries)
+    #[serde(default)]
+    pub emptied_slot: bool,
 }
 
 pub fn case_strategy() -> impl Strategy<Value = LiqCase> {
@@ -55,9 +60,9 @@ pub fn case_strategy() -> impl Strategy<Value = LiqCase> {
         (prop_oneof![2 => 1u64..1000, 2 => 1000u64..1_000_000_000_000, 6 => 1u64..=65_536, 2 => 0u64..5], 0u8..3),
         (prop_oneof![Just(0u32), 1u32..90, 1000u32..20_000_000], prop::bool::weighted(0.35), prop::bool::weighted(0.15), prop::bool::weighted(0.3)),
         // staked world: the collateral (and the extra bank) are real staked-collateral banks, the debt bank is SOL-tagged
-        (prop::bool::weighted(0.12), prop::array::uniform2((1_000_000_000u64..2_000_000_000_000_000, 500u32..3000))),
+        (prop::bool::weighted(0.12), prop::array::uniform2((1_000_000_000u64..2_000_000_000_000_000, 500u32..3000)), prop::bool::weighted(0.4)),
     )
-        .prop_map(|(mut banks, collateral, borrow_frac, extra_collateral, target_pm, liq_deposit_frac, liq_collateral, (q, qr), (wait, emode, reduce_only_collateral, stale_extra), (staked_world, pools))| {
+        .prop_map(|(mut banks, collateral, borrow_frac, extra_collateral, target_pm, liq_deposit_frac, liq_collateral, (q, qr), (wait, emode, reduce_only_collateral, stale_extra), (staked_world, pools, emptied_slot))| {
             let emode = emode && !staked_world;
             if staked_world {
                 let mut feed = banks[1].oracle.clone();
@@ -111,7 +116,7 @@ pub fn case_strategy() -> impl Strategy<Value = LiqCase> {
                 // keep confidence below the 10% usability bound
             }
             let q_rel = if q <= 65_536 && qr == 1 { 1 } else if q < 5 && qr == 2 { 2 } else { 0 };
-            LiqCase { spec: WorldSpec { banks, n_users: 3, program_fees_enabled: false, ..WorldSpec::default() }, collateral, borrow_frac, extra_collateral, target_pm, liq_deposit_frac, liq_collateral, q, q_rel, wait, emode, reduce_only_collateral, stale_extra: stale_extra && extra_collateral > 0 }
+            LiqCase { spec: WorldSpec { banks, n_users: 3, program_fees_enabled: false, ..WorldSpec::default() }, collateral, borrow_frac, extra_collateral, target_pm, liq_deposit_frac, liq_collateral, q, q_rel, wait, emode, reduce_only_collateral, stale_extra: stale_extra && extra_collateral > 0, emptied_slot }
         })
 }
 
@@ -127,6 +132,7 @@ pub struct Stats {
     pub max_width: f64,
     pub pre_health_sign: i8,
     pub stale_extra: bool,
+    pub emptied_slot: bool,
     pub hostile_tried: u64,
     pub hostile_accepted: u64,
 }
@@ -282,6 +288,10 @@ pub fn run_case(c: &LiqCase, stats: &mut Stats) -> Result<(), (String, String)> 
     if c.extra_collateral > 0 {
         let ix = w.ix_deposit(le.accts[0], le.auth, xb, le.tokens[xb], c.extra_collateral, None);
         let _ = w.vm.exec(&ix);
+    } else if c.emptied_slot {
+        if w.vm.exec(&w.ix_deposit(le.accts[0], le.auth, xb, le.tokens[xb], 1000, None)).is_ok() && w.vm.exec(&w.ix_withdraw(le.accts[0], le.auth, xb, le.tokens[xb], 1000, None)).is_ok() {
+            stats.emptied_slot = true;
+        }
     }
     // borrow
     let power = {
@@ -478,6 +488,9 @@ pub fn run(ctx: &Ctx) -> Report {
                 }
                 rep.add_extra("hostile_observation_lists_tried", st.hostile_tried);
                 rep.add_extra("hostile_observation_lists_accepted", st.hostile_accepted);
+                if st.emptied_slot {
+                    rep.label("liquidatee-holds-an-emptied-open-slot");
+                }
                 if st.stale_extra {
                     rep.label("extra-collateral-oracle-stale");
                 }
